@@ -3,53 +3,227 @@ import itertools
 
 ID = "C26"
 PROP_FILE = "Props/C26.v"
-THEOREMS = ["C26_closed_form"]
-COQ_IMPORTS = "From BV Require Import Pure.Snake."
+THEOREMS = ["C26_total", "C26_closed_form", "C26_permutation", "C26_unsnaked_product_order",
+            "C26_turnaround", "C26_continuity", "C26_first_flag_irrelevant"]
+COQ_IMPORTS = "From BV Require Import Pure.Snake Pure.Patterns."
 MODELLED = ("bluesky.utils.snake_cyclers is modelled at list level (np.tile/np.repeat/np.concatenate/slicing and "
-            "cycler +,* as list functions); axis values are integer labels; cycler/numpy themselves are trusted.")
-RULE = ("exhaustive: all axis-length vectors with 1..4 axes (quick: lengths<=3; thorough: <=4) x all snake flag vectors; "
-        "plus random vectors up to 6 axes x length 9 (product <= 4000); non-trivial = at least one snaked axis after "
-        "the first and total length > 1; distinct by (lens, flags, entry point)")
+            "cycler +,* as list functions); axis values are integer labels 0..L-1; plan_patterns.outer_product "
+            "(classify/chunk_outer_product_args, both argument patterns) and outer_list_product (snake_axes "
+            "None/False/True/list) are modelled as argument parsing + snake_cyclers on the labels; cycler, numpy and "
+            "toolz.partition themselves are trusted (modelled, not verified).")
+RULE = ("exhaustive: all axis-length vectors with 1..4 axes (quick: lengths<=3; thorough: <=4) x all snake flag vectors "
+        "through snake_cyclers; all vectors with 1..3 axes through outer_product (both argument patterns, all snake "
+        "booleans) and outer_list_product (snake_axes None/False/True/every subset of motors); pattern-ambiguous "
+        "argument counts (24 = 6x4 = 4+4x5); random vectors up to 6 axes x length 9 (product <= 600 quick, <= 3000 thorough) through all three entry points; "
+        "malformed stream: length mismatches, misplaced motors, wrong argument counts, odd list arguments, repeated "
+        "motors.  non-trivial = at least one snaked axis after the first and more than one point")
+
+
+# ----------------------------------------------------------------------------- case construction
+
+def _op_tokens(lens, flags, pattern):
+    """argument tokens of outer_product for integer labels 0..L-1"""
+    toks = []
+    for i, L in enumerate(lens):
+        toks += [["m", i], ["v", 0], ["v", L - 1], ["n", L]]
+        if pattern == 2 and i > 0:
+            toks.append(["b", bool(flags[i])])
+    return toks
+
+
+def _olp_tokens(lens, motors=None):
+    toks = []
+    for i, L in enumerate(lens):
+        toks += [["m", i if motors is None else motors[i]], ["l", L]]
+    return toks
+
+
+def _prod(lens):
+    t = 1
+    for x in lens:
+        t *= x
+    return t
 
 
 def cases(rng, tier):
-    out = []
+    small, heavy = [], []
     maxlen = 3 if tier == "quick" else 4
     for n in range(1, 5):
         for lens in itertools.product(range(1, maxlen + 1), repeat=n):
             for flags in itertools.product([False, True], repeat=n):
-                out.append({"lens": list(lens), "flags": list(flags), "via": "snake_cyclers"})
-    nrand = 150 if tier == "quick" else 3000
-    for _ in range(nrand):
+                small.append({"lens": list(lens), "flags": list(flags), "via": "snake_cyclers"})
+    # the two plan_patterns entry points, exhaustive on small grids
+    for n in range(1, 4):
+        for lens in itertools.product(range(1, maxlen + 1), repeat=n):
+            small.append({"via": "outer_product", "pattern": 1, "args": _op_tokens(lens, [False] * n, 1)})
+            for fl in itertools.product([False, True], repeat=n - 1):
+                if n > 1:
+                    small.append({"via": "outer_product", "pattern": 2, "args": _op_tokens(lens, [False] + list(fl), 2)})
+            for sa in [None, False, True]:
+                small.append({"via": "outer_list_product", "args": _olp_tokens(lens), "snake_axes": sa})
+            for r in range(0, n + 1):
+                for sub in itertools.combinations(range(n), r):
+                    small.append({"via": "outer_list_product", "args": _olp_tokens(lens), "snake_axes": list(sub)})
+    # argument counts for which both patterns have the right length: 24 = 6*4 = 4 + 4*5, 44 = 11*4 = 4 + 8*5
+    for fl in itertools.product([False, True], repeat=4):
+        small.append({"via": "outer_product", "pattern": 2, "args": _op_tokens([2, 1, 2, 1, 2], [False] + list(fl), 2)})
+    small.append({"via": "outer_product", "pattern": 1, "args": _op_tokens([2, 1, 2, 1, 2, 1], [False] * 6, 1)})
+    small.append({"via": "outer_product", "pattern": 1, "args": _op_tokens([1] * 11, [False] * 11, 1)})
+    small.append({"via": "outer_product", "pattern": 2, "args": _op_tokens([1, 2] + [1] * 7, [False, True] + [False] * 7, 2)})
+    # random larger grids
+    nrand = 90 if tier == "quick" else 1200
+    cap = 600 if tier == "quick" else 3000
+    for j in range(nrand):
         n = rng.randint(1, 6)
         while True:
             lens = [rng.randint(1, 9) for _ in range(n)]
-            tot = 1
-            for x in lens:
-                tot *= x
-            if tot <= 4000:
+            if _prod(lens) <= cap:
                 break
         flags = [rng.random() < 0.6 for _ in range(n)]
-        out.append({"lens": lens, "flags": flags, "via": "snake_cyclers"})
-    # malformed stream: length mismatch
+        k = j % 3
+        if k == 0:
+            heavy.append({"lens": lens, "flags": flags, "via": "snake_cyclers"})
+        elif k == 1:
+            pat = 2 if (n > 1 and rng.random() < 0.8) else 1
+            heavy.append({"via": "outer_product", "pattern": pat, "args": _op_tokens(lens, [False] + flags[1:], pat)})
+        else:
+            r = rng.random()
+            sa = True if r < 0.3 else False if r < 0.4 else [i for i in range(n) if flags[i]]
+            heavy.append({"via": "outer_list_product", "args": _olp_tokens(lens), "snake_axes": sa})
+    # malformed stream
+    bad = []
     for n in range(1, 4):
-        out.append({"lens": [2] * n, "flags": [True] * (n + 1), "via": "snake_cyclers"})
-        out.append({"lens": [2] * (n + 1), "flags": [True] * n, "via": "snake_cyclers"})
-    return out
+        bad.append({"lens": [2] * n, "flags": [True] * (n + 1), "via": "snake_cyclers"})
+        bad.append({"lens": [2] * (n + 1), "flags": [True] * n, "via": "snake_cyclers"})
+    for n in range(1, 4):
+        good2 = _op_tokens([2] * n, [False] + [True] * (n - 1), 2)
+        good1 = _op_tokens([2] * n, [False] * n, 1)
+        for good, pat in ((good1, 1), (good2, 2)):
+            for i in range(len(good)):
+                dr = good[:i] + good[i + 1:]
+                if _typed_ok(dr) or not (_placement_ok(dr, 1) or _placement_ok(dr, 2)):
+                    bad.append({"via": "outer_product", "pattern": pat, "mal": "drop", "args": dr})
+            for i in range(len(good) - 1):
+                sw = list(good)
+                sw[i], sw[i + 1] = sw[i + 1], sw[i]
+                if not (_placement_ok(sw, 1) or _placement_ok(sw, 2)):
+                    bad.append({"via": "outer_product", "pattern": pat, "mal": "swap", "args": sw})
+            bad.append({"via": "outer_product", "pattern": pat, "mal": "extra", "args": good + [["m", 7]]})
+            if n > 1:
+                dup = [list(t) for t in good]
+                for t in dup:
+                    if t[0] == "m":
+                        t[1] = 0
+                bad.append({"via": "outer_product", "pattern": pat, "mal": "dup", "args": dup})
+        gl = _olp_tokens([2] * n)
+        bad.append({"via": "outer_list_product", "mal": "odd", "args": gl + [["m", 7]], "snake_axes": True})
+        bad.append({"via": "outer_list_product", "mal": "odd", "args": gl[:-1], "snake_axes": [0]})
+        if n > 1:
+            bad.append({"via": "outer_list_product", "mal": "dup", "args": _olp_tokens([2] * n, [0] * n), "snake_axes": True})
+            bad.append({"via": "outer_list_product", "mal": "dup", "args": _olp_tokens([2] * n, [0] * n), "snake_axes": False})
+    bad.append({"via": "outer_product", "pattern": 1, "mal": "empty", "args": []})
+    bad.append({"via": "outer_list_product", "mal": "empty", "args": [], "snake_axes": False})
+    # interleave the heavy cases so that every Coq shard gets its share
+    out = []
+    step = max(1, len(small) // max(1, len(heavy)))
+    hi = 0
+    for i, c in enumerate(small):
+        out.append(c)
+        if i % step == step - 1 and hi < len(heavy):
+            out.append(heavy[hi])
+            hi += 1
+    out += heavy[hi:]
+    return out + bad
+
+
+def _placement_ok(toks, pat):
+    n = len(toks)
+    if pat == 1:
+        if n % 4:
+            return False
+        pos = set(range(0, n, 4))
+    else:
+        if not (n > 4 and (n - 4) % 5 == 0):
+            return False
+        pos = set([0] + list(range(4, n, 5)))
+    return all((t[0] == "m") == (i in pos) for i, t in enumerate(toks))
+
+
+def _typed_ok(toks):
+    """the pattern the classifier picks holds numbers/counts/booleans where the model expects them (the
+    model covers the motor placement check, not Python's duck typing of the other slots)"""
+    for pat in (1, 2):
+        if _placement_ok(toks, pat):
+            rest = toks if pat == 1 else toks[:4] + [["b", False]] + toks[4:]
+            w = 4 if pat == 1 else 5
+            want = ["m", "v", "v", "n", "b"][:w]
+            return all(rest[i][0] == want[i % w] for i in range(len(rest)))
+    return False
+
+
+# ----------------------------------------------------------------------------- implementation side
+
+def _build_args(toks, motors):
+    from harness.drivers.scan_fakes import FakeMotor
+    args = []
+    for kind, v in toks:
+        if kind == "m":
+            if v not in motors:
+                motors[v] = FakeMotor("m%d" % v)
+            args.append(motors[v])
+        elif kind == "l":
+            args.append(list(range(v)))
+        else:
+            args.append(v)
+    return args
+
+
+def _project(cyc, motors):
+    ids = {id(m): k for k, m in motors.items()}
+    pts, keys = [], None
+    for p in cyc:
+        ks = [ids[id(m)] for m in p.keys()]
+        if keys is None:
+            keys = ks
+        elif keys != ks:
+            return {"error": "KeyOrderChanges"}
+        row = []
+        for v in p.values():
+            if float(v) != int(v):
+                return {"error": "NonIntegerLabel"}
+            row.append(int(v))
+        pts.append(row)
+    return {"points": pts, "keys": keys}
 
 
 def impl(case):
-    from cycler import cycler
-    from bluesky.utils import snake_cyclers
-    lens, flags = case["lens"], case["flags"]
-    cyc = [cycler("a%d" % i, list(range(L))) for i, L in enumerate(lens)]
+    via = case["via"]
     try:
-        res = snake_cyclers(cyc, flags)
-    except ValueError as e:
+        if via == "snake_cyclers":
+            from cycler import cycler
+            from bluesky.utils import snake_cyclers
+            lens, flags = case["lens"], case["flags"]
+            cyc = [cycler("a%d" % i, list(range(L))) for i, L in enumerate(lens)]
+            res = snake_cyclers(cyc, flags)
+            return {"points": [[int(p["a%d" % i]) for i in range(len(lens))] for p in res]}
+        from bluesky import plan_patterns
+        motors = {}
+        args = _build_args(case["args"], motors)
+        if via == "outer_product":
+            return _project(plan_patterns.outer_product(args), motors)
+        sa = case["snake_axes"]
+        if isinstance(sa, list):
+            for k in sa:
+                _build_args([["m", k]], motors)
+            sa = [motors[k] for k in sa]
+        return _project(plan_patterns.outer_list_product(args, sa), motors)
+    except ValueError:
         return {"error": "ValueError"}
-    pts = [[int(p["a%d" % i]) for i in range(len(lens))] for p in res]
-    return {"points": pts}
+    except TypeError:
+        return {"error": "TypeError"}
 
+
+# ----------------------------------------------------------------------------- model side
 
 def cl(xs, f=str):
     return "[" + "; ".join(f(x) for x in xs) + "]"
@@ -59,14 +233,47 @@ def cb(b):
     return "true" if b else "false"
 
 
-def coq_term(case, obs):
-    lens, flags = cl(case["lens"]), cl(case["flags"], cb)
-    if "error" in obs:
-        exp = "None"
-    else:
-        exp = "Some " + cl(obs["points"], cl)
-    return "olln_beq (snake_cyclers %s %s) (%s)" % (lens, flags, exp)
+def _tok(t):
+    kind, v = t
+    if kind == "m":
+        return "AMot %d" % v
+    if kind == "v":
+        return "AVal %d" % v
+    if kind == "n":
+        return "ANum %d" % v
+    if kind == "b":
+        return "ABool %s" % cb(v)
+    return "AList %s" % cl(range(v))
 
+
+def _sa(sa):
+    if sa is None:
+        return "SANone"
+    if sa is True:
+        return "SATrue"
+    if sa is False:
+        return "SAFalse"
+    return "(SAList %s)" % cl(sa)
+
+
+def coq_term(case, obs):
+    exp = "None" if "error" in obs else "Some " + cl(obs["points"], cl)
+    if case["via"] == "snake_cyclers":
+        return "olln_beq (snake_cyclers %s %s) (%s)" % (cl(case["lens"]), cl(case["flags"], cb), exp)
+    args = "(%s : list (@arg nat))" % cl(case["args"], _tok)
+    if case["via"] == "outer_product":
+        t = "olln_beq (outer_product_labels %s) (%s)" % (args, exp)
+        if "keys" in obs and obs["keys"] is not None:
+            t += " && option_beq lnat_beq (option_map (map (@ax_motor nat)) (outer_product_axes %s)) (Some %s)" % (args, cl(obs["keys"]))
+        return t
+    t = "olln_beq (outer_list_product_labels %s %s) (%s)" % (args, _sa(case["snake_axes"]), exp)
+    if "keys" in obs and obs["keys"] is not None:
+        t += (" && option_beq lnat_beq (option_map (map fst) (all_some (map to_list_axis (part2 %s)))) (Some %s)"
+              % (args, cl(obs["keys"])))
+    return t
+
+
+# ----------------------------------------------------------------------------- property, implementation side
 
 def _point(lens, flags, t):
     pt = []
@@ -82,16 +289,53 @@ def _point(lens, flags, t):
     return pt
 
 
+def _documented(case):
+    """(lens, flags, keys) the documentation promises for a well-formed call, or None if the call is
+    malformed (must raise) or 'drops' (documented silent truncation by partition)."""
+    via = case["via"]
+    if via == "snake_cyclers":
+        if len(case["lens"]) != len(case["flags"]):
+            return None
+        return case["lens"], case["flags"], None
+    toks = case["args"]
+    if via == "outer_product":
+        for pat in (1, 2):
+            if _placement_ok(toks, pat) and _typed_ok(toks) and toks:
+                w = 4 if pat == 1 else 5
+                full = toks if pat == 1 else toks[:4] + [["b", False]] + toks[4:]
+                rows = [full[i:i + w] for i in range(0, len(full), w)]
+                keys = [r[0][1] for r in rows]
+                if len(set(keys)) != len(keys):
+                    return None
+                return [r[3][1] for r in rows], [False if pat == 1 else r[4][1] for r in rows], keys
+        return None
+    pairs = [toks[i:i + 2] for i in range(0, len(toks) - 1, 2)]
+    if not pairs or any(p[0][0] != "m" or p[1][0] != "l" for p in pairs):
+        return None
+    keys = [p[0][1] for p in pairs]
+    if len(set(keys)) != len(keys):
+        return None
+    sa = case["snake_axes"]
+    if sa is True:
+        flags = [i > 0 for i in range(len(keys))]
+    elif not sa:
+        flags = [False] * len(keys)
+    else:
+        flags = [k in sa for k in keys]
+    return [p[1][1] for p in pairs], flags, keys
+
+
 def oracle(case, obs):
-    lens, flags = case["lens"], case["flags"]
-    if len(lens) != len(flags):
-        return None if "error" in obs else "length mismatch accepted"
+    doc = _documented(case)
+    if doc is None:
+        return None if "error" in obs else "malformed call accepted"
+    lens, flags, keys = doc
     if "error" in obs:
         return "valid input rejected: " + obs["error"]
     pts = obs["points"]
-    tot = 1
-    for x in lens:
-        tot *= x
+    if keys is not None and obs.get("keys") != keys and pts:
+        return "axes come out in order %s, arguments give %s" % (obs.get("keys"), keys)
+    tot = _prod(lens)
     if len(pts) != tot:
         return "trajectory has %d points, grid has %d" % (len(pts), tot)
     if sorted(map(tuple, pts)) != sorted(itertools.product(*[range(L) for L in lens])):
@@ -99,12 +343,30 @@ def oracle(case, obs):
     for t, p in enumerate(pts):
         if p != _point(lens, flags, t):
             return "point %d is %s, documented back-and-forth order gives %s" % (t, p, _point(lens, flags, t))
+    for t in range(len(pts) - 1):
+        ch = [k for k in range(len(lens)) if pts[t][k] != pts[t + 1][k]]
+        if not ch:
+            return "points %d and %d coincide" % (t, t + 1)
+        j = ch[0]
+        if abs(pts[t][j] - pts[t + 1][j]) != 1:
+            return "slowest changing axis jumps by more than one between points %d and %d" % (t, t + 1)
+        for k in ch[1:]:
+            if flags[k]:
+                return "snaked axis %d moves while slower axis %d advances (points %d,%d)" % (k, j, t, t + 1)
     return None
 
 
 def nontrivial(case, obs):
-    return "points" in obs and len(obs["points"]) > 1 and any(case["flags"][1:])
+    doc = _documented(case)
+    return "points" in obs and len(obs["points"]) > 1 and doc is not None and any(doc[1][1:])
 
 
 def describe(case):
-    return "axes=%d snaked=%d" % (len(case["lens"]), sum(1 for f in case["flags"][1:] if f))
+    via = case["via"]
+    if "mal" in case:
+        return "%s malformed:%s" % (via, case["mal"])
+    doc = _documented(case)
+    if doc is None:
+        return "%s malformed" % via
+    tag = via if via != "outer_product" else "outer_product/p%d" % case["pattern"]
+    return "%s axes=%d snaked=%d" % (tag, len(doc[0]), sum(1 for f in doc[1][1:] if f))
